@@ -128,11 +128,16 @@ func Flow(r *core.Rand, cfg FlowCfg) *hast.Program {
 		g.cur = i
 		node := &hast.Node{Title: g.titles[i]}
 		if cfg.Tracking {
-			switch r.Intn(4) {
+			switch r.Intn(5) {
 			case 0:
 				node.Headers = append(node.Headers, [2]string{"tracking", "never"})
 			case 1:
 				node.Headers = append(node.Headers, [2]string{"tracking", "always"})
+			case 2:
+				// any other value is not "never": the node is counted
+				if r.Chance(1, 2) {
+					node.Headers = append(node.Headers, [2]string{"tracking", r.Pick("sometimes", "", "Always", "Never", "nevermore", "yes")})
+				}
 			}
 		}
 		if r.Chance(1, 3) {
